@@ -3,6 +3,7 @@ package pk
 import (
 	"encoding/hex"
 	"fmt"
+	"math"
 	"reflect"
 	"sort"
 	"strings"
@@ -72,7 +73,7 @@ func dump(sb *strings.Builder, v reflect.Value, depth int) {
 			sb.WriteString("action?")
 			return
 		case *brigodier.RootCommandNode:
-			sb.WriteString("<commands>")
+			sb.WriteString(DumpCommands(x))
 			return
 		case []byte:
 			sb.WriteString(hex.EncodeToString(x))
@@ -125,4 +126,71 @@ func dump(sb *strings.Builder, v reflect.Value, depth int) {
 	default:
 		fmt.Fprintf(sb, "%v", v)
 	}
+}
+
+// DumpCommands prints a command tree canonically and without spaces: node kinds, names, executable/redirect flags,
+// children in order, and argument types with their properties — number bounds bit-exact (floats as bit patterns).
+func DumpCommands(root *brigodier.RootCommandNode) string {
+	if root == nil {
+		return "nil"
+	}
+	var sb strings.Builder
+	seen := map[brigodier.CommandNode]int{}
+	var walk func(n brigodier.CommandNode, depth int)
+	walk = func(n brigodier.CommandNode, depth int) {
+		if id, ok := seen[n]; ok {
+			fmt.Fprintf(&sb, "^%d", id)
+			return
+		}
+		seen[n] = len(seen)
+		if depth > 40 {
+			sb.WriteString("…")
+			return
+		}
+		switch t := n.(type) {
+		case *brigodier.RootCommandNode:
+			sb.WriteString("root")
+		case *brigodier.LiteralCommandNode:
+			fmt.Fprintf(&sb, "lit:%x", t.Name())
+		case *brigodier.ArgumentCommandNode:
+			fmt.Fprintf(&sb, "arg:%x:%s", t.Name(), dumpArgType(t.Type()))
+			if t.CustomSuggestions() != nil {
+				sb.WriteString(":sugg")
+			}
+		}
+		if n.Command() != nil {
+			sb.WriteString("!")
+		}
+		if r := n.Redirect(); r != nil {
+			sb.WriteString("->")
+			walk(r, depth+1)
+		}
+		sb.WriteByte('{')
+		n.ChildrenOrdered().Range(func(_ string, c brigodier.CommandNode) bool {
+			walk(c, depth+1)
+			sb.WriteByte(';')
+			return true
+		})
+		sb.WriteByte('}')
+	}
+	walk(root, 0)
+	return sb.String()
+}
+
+func dumpArgType(t brigodier.ArgumentType) string {
+	switch a := t.(type) {
+	case *brigodier.Float64ArgumentType:
+		return fmt.Sprintf("f64[%016x,%016x]", math.Float64bits(a.Min), math.Float64bits(a.Max))
+	case *brigodier.Float32ArgumentType:
+		return fmt.Sprintf("f32[%08x,%08x]", math.Float32bits(a.Min), math.Float32bits(a.Max))
+	case *brigodier.Int64ArgumentType:
+		return fmt.Sprintf("i64[%d,%d]", a.Min, a.Max)
+	case *brigodier.Int32ArgumentType:
+		return fmt.Sprintf("i32[%d,%d]", a.Min, a.Max)
+	case brigodier.StringType:
+		return fmt.Sprintf("str%d", int(a))
+	case *brigodier.BoolArgumentType:
+		return "bool"
+	}
+	return strings.ReplaceAll(fmt.Sprintf("%T:%v", t, t), " ", "_")
 }
